@@ -77,6 +77,9 @@ def smoothed_path_sampled(c, kinds, closed):
     from svgpathtools.smoothing import smoothed_path, kinks
     path, segs = _rand_path(c, kinds, closed)
     n = len(segs)
+    if not closed:
+        # an 'open' sample whose ends happen to coincide is a closed path: not this instance
+        c.assume(abs(segs[0].start - segs[-1].end) > 1e-6 * max(abs(s.start - s.end) for s in segs))
     # corner angles strictly inside (0,180): exclude (near-)smooth and (near-)reversal joints
     rng = range(n) if closed else range(n - 1)
     for i in rng:
